@@ -347,7 +347,11 @@ class Watcher(object):
                 self.stdout_stream, self.stderr_stream, loop=self.loop)
 
         if old_stream:
-            if hasattr(old_stream, 'close'):
+            # a ready-made stream object may still be in use, by this
+            # channel or by the other one: do not close it then
+            in_use = (old_stream is self.stdout_stream or
+                      old_stream is self.stderr_stream)
+            if not in_use and hasattr(old_stream, 'close'):
                 old_stream.close()
             return 0
 
